@@ -355,7 +355,7 @@ impl ChunkDeserializer {
         } else if self.current_payload_data.len() == 0 {
             // Since we already added the MAX_INITIAL_TIMESTAMP to the timestamp, only add the delta difference
             self.current_header.timestamp =
-                self.current_header.timestamp + (timestamp - MAX_INITIAL_TIMESTAMP);
+                self.current_header.timestamp + timestamp.wrapping_sub(MAX_INITIAL_TIMESTAMP);
         }
 
         self.current_stage = ParseStage::MessagePayload;
